@@ -14,7 +14,8 @@ RULE = ('Conformant documents with two transaction sets (generator of C02) x one
         'Oracle: verdict False; an error with an expected standard code at (set, position in set, element, component) of the '
         'injection, with the offending value where one exists; matching AK3/AK4 (IK3/IK4) in the independently tokenised '
         'acknowledgement; for local faults nothing at any other (segment, element) coordinate and the sibling set AK5/IK5 = A. '
-        'Non-trivial: every case; distinct by (map, node path, element, fault kind).')
+        'Thorough adds target mode: every body segment node of every map is forced into a document and receives every '
+        'applicable fault kind once. Non-trivial: every case; distinct by (map, node path, element, fault kind).')
 ASSUMPTIONS = ['expected code sets follow the X12 997/999 code lists (vpx/faults.py); where pyx12 documents its own choice the set has several members',
                'elements used for matching, bookkeeping elements (HL01-04, LX01, BHT02, DTP02/1250 qualifiers) and envelope segments are not fault sites',
                'for a removed required segment / loop over its limit only rejection and the coded error in the faulty set are required (not locality)']
@@ -202,16 +203,69 @@ def run_entry(entry, n, seed, acc, tier, kinds=None):
     core.hyp_collect(case(), chk, n, seed, acc, case_timeout=120)
 
 
+def run_targets(entry, seed, acc):
+    """thorough: every segment node of the map is forced into a document and receives every applicable fault kind once"""
+    root = mm.load_map(entry['file'])
+    nodes = [n for n in mm.walk(root) if n.kind == 'seg' and n.usage != 'N' and n.id not in faults.ENVELOPE and c02._usable(n)]
+    reached = 0
+    for i, node in enumerate(nodes):
+        doc = None
+        for k in range(4):
+            ch = docgen.RandomChooser(seed * 1000003 + i * 131 + k)
+            try:
+                doc = docgen.build_doc(entry, ch, p_seg=.15, p_loop=.12, max_rep=2, target=node, shape=(1, 1, 2), max_segs=250)
+                break
+            except docgen.GenFail:
+                doc = None
+        if doc is None:
+            acc.classes['target-genfail'] += 1
+            continue
+        c02.strip_known(doc, acc)
+        base = observe.run_validator(doc.text(), ack=False)
+        if base.exc is not None or base.verdict is not True or base.errors:
+            acc.classes['skipped:base-document-not-accepted(C02)'] += 1
+            continue
+        idx = [j for j, s in enumerate(doc.segs) if s.node is node]
+        if not idx:
+            continue
+        reached += 1
+        for kind in faults.KINDS:
+            cands = [c for c in faults.candidates(doc, kind) if c[0] in idx]
+            if not cands:
+                continue
+            # every location for "required element removed" (few per segment), three rotating ones for the other kinds
+            take = cands if kind == 'required-removed' else [cands[(seed + i + q * 7) % len(cands)] for q in range(min(3, len(cands)))]
+            done = set()
+            for loc in take:
+                if loc in done:
+                    continue
+                done.add(loc)
+                res = faults.inject(doc, kind, loc, seed * 31 + i)
+                if res is None:
+                    continue
+                d2, exp = res
+                c = make_case(d2, exp)
+                o = check_case(c)
+                o.classes.append('target')
+                acc.add(c, o)
+    acc.extra.setdefault('target_nodes', {})[entry['file'] + ('/' + entry['tspc'] if entry.get('tspc') else '')] = '%d/%d' % (reached, len(nodes))
+
+
 def shards(tier, seed):
     s = []
     for i, e in enumerate(c02.entries()):
         if e['file'].startswith(('830', '841')):
             continue
         s.append({'entry': e, 'i': i, 'n': 150 if tier == 'thorough' else 20})
+        if tier == 'thorough':
+            s.append({'entry': e, 'i': i, 'targets': True})
     return s
 
 
 def run_shard(spec, seed, tier):
     acc = core.Acc()
-    run_entry(spec['entry'], spec['n'], seed * 1000 + spec['i'], acc, tier)
+    if spec.get('targets'):
+        run_targets(spec['entry'], seed, acc)
+    else:
+        run_entry(spec['entry'], spec['n'], seed * 1000 + spec['i'], acc, tier)
     return acc
